@@ -96,7 +96,7 @@ func (incr *incremental[Obj]) single(ctx context.Context, txn statedb.ReadTxn, c
 		// Clear retries as the object has changed.
 		incr.retries.Clear(obj)
 
-		incr.processSingle(ctx, txn, obj, rev, change.Deleted)
+		incr.processSingle(ctx, txn, obj, rev, change.Deleted, 0)
 		incr.numReconciled++
 		if incr.numReconciled >= incr.config.IncrementalRoundSize {
 			break
@@ -192,13 +192,15 @@ func (incr *incremental[Obj]) processRetries(ctx context.Context, txn statedb.Re
 			break
 		}
 		incr.retries.Pop()
-		incr.processSingle(ctx, txn, item.object.(Obj), item.rev, item.delete)
+		incr.processSingle(ctx, txn, item.object.(Obj), item.rev, item.delete, item.statusID)
 		incr.numReconciled++
 	}
 	return incr.retries.LowWatermark()
 }
 
-func (incr *incremental[Obj]) processSingle(ctx context.Context, txn statedb.ReadTxn, obj Obj, rev statedb.Revision, delete bool) {
+// processSingle reconciles a single object. [statusID] is non-zero for retries and is
+// the identifier of the error status that was stored for the object at revision [rev].
+func (incr *incremental[Obj]) processSingle(ctx context.Context, txn statedb.ReadTxn, obj Obj, rev statedb.Revision, delete bool, statusID uint64) {
 	start := time.Now()
 
 	var (
@@ -218,8 +220,10 @@ func (incr *incremental[Obj]) processSingle(ctx context.Context, txn statedb.Rea
 		obj = incr.config.CloneObject(obj)
 		op = OpUpdate
 		err = incr.config.Operations.Update(ctx, txn, rev, obj)
-		status := incr.config.GetObjectStatus(obj)
-		incr.results[obj] = opResult{original: orig, id: status.ID, rev: rev, err: err}
+		if statusID == 0 {
+			statusID = incr.config.GetObjectStatus(obj).ID
+		}
+		incr.results[obj] = opResult{original: orig, id: statusID, rev: rev, err: err}
 	}
 	incr.metrics.ReconciliationDuration(incr.moduleID, incr.name, op, time.Since(start))
 
@@ -251,7 +255,9 @@ func (incr *incremental[Obj]) commitStatus() (numErrors int) {
 			numErrors++
 		}
 
-		current, exists, err := incr.table.CompareAndSwap(wtxn, result.rev, incr.config.SetObjectStatus(obj, status))
+		// written is the object as stored in the table with the new status.
+		written := incr.config.SetObjectStatus(obj, status)
+		current, exists, err := incr.table.CompareAndSwap(wtxn, result.rev, written)
 		if errors.Is(err, statedb.ErrRevisionNotEqual) && exists {
 			// The object had changed. Check if the pending status still carries the same
 			// identifier and if so update the object. This is an optimization for supporting
@@ -261,11 +267,16 @@ func (incr *incremental[Obj]) commitStatus() (numErrors int) {
 			// The limitation of this approach is that we cannot support the reconciler
 			// modifying the object during reconciliation as the following will forget
 			// the changes.
+			//
+			// The identifier is the one of the status stored for the object at the revision
+			// it was reconciled at: its pending status, or when retrying the error status
+			// written for the failed attempt.
 			currentStatus := incr.config.GetObjectStatus(current)
-			if currentStatus.Kind == StatusKindPending && currentStatus.ID == result.id {
+			if (currentStatus.Kind == StatusKindPending || currentStatus.Kind == StatusKindError) && currentStatus.ID == result.id {
 				current = incr.config.CloneObject(current)
 				current = incr.config.SetObjectStatus(current, status)
 				_, _, err = incr.table.Insert(wtxn, current)
+				written = current
 			}
 		}
 
@@ -273,7 +284,19 @@ func (incr *incremental[Obj]) commitStatus() (numErrors int) {
 			// Reconciliation of the object had failed and the status was updated
 			// successfully (object had not changed). Queue the retry for the object.
 			newRevision := incr.table.Revision(wtxn)
-			incr.retries.Add(result.original.(Obj), newRevision, result.rev, false, result.err)
+
+			// Retry with the object as it is now stored, but with the status it was
+			// reconciled with (e.g. refreshing). The original object must not be used as
+			// such: with multiple reconcilers it may carry stale statuses of the other
+			// reconcilers, which a successful retry would then write back over the newer
+			// ones. Remember the identifier of the stored error status so that the result
+			// of the retry can be committed even if other reconcilers have updated their
+			// statuses in the meanwhile.
+			retryObj := incr.config.SetObjectStatus(
+				incr.config.CloneObject(written),
+				incr.config.GetObjectStatus(result.original.(Obj)))
+			incr.retries.Add(retryObj, newRevision, result.rev, false, result.err)
+			incr.retries.setStatusID(retryObj, status.ID)
 		}
 	}
 	return
